@@ -71,3 +71,36 @@ Theorem switch_gotomap_miss_scans : forall code ip id tbl st tg tr ips,
   nth_error code ip = Some (IGotoMap id tbl) -> zassoc (tg id) tbl = None ->
   step code (mkM ip st tg tr ips) = Step (mkM (ip + 1) st tg tr (ip :: ips)).
 Proof. intros. unfold step. rewrite H, H0. reflexivity. Qed.
+
+(* Header variables are allocated once per loop: the compiled for statement with header declarations is
+   PushEnv ; X ; PopEnv where no loop-internal control transfer re-executes the PushEnv: the back edge goes to
+   the condition (after PushEnv and init), `continue` goes to the post statement / condition, `break` to the PopEnv. *)
+Theorem scoping_per_loop : forall cx base lbls n init cond post nb body c,
+  compile cx base lbls (SFor n init cond post nb body) = Some c -> n <> 0 ->
+  exists X cb,
+    c = IPush n :: X ++ [IPop] /\
+    In (IJmp 0 (base + 1 + length init)) X /\
+    (forall i, In i (map csimple init) -> exists k, nth_error X k = Some i /\ k < length init) /\
+    let cond_ip := base + 1 + length init in
+    let body_ip := cond_ip + (match cond with Some _ => 1 | None => 0 end) in
+    let post_ip := body_ip + bsize nb body in
+    let brk_ip := post_ip + length post + 1 in
+    let cont_ip := match post with [] => cond_ip | _ => post_ip end in
+    let cxb := mkFrame (cost nb) None [] :: mkFrame 1 (Some (mkLoop lbls brk_ip (Some cont_ip))) [] :: cx in
+    compile cxb (body_ip + cost nb) [] body = Some cb /\
+    resolve_break cxb None 0 = Some (cost nb, brk_ip) /\
+    resolve_cont cxb None 0 = Some (cost nb, cont_ip) /\
+    base < cond_ip /\ base < cont_ip /\ brk_ip = base + size (SFor n init cond post nb body) - 1.
+Proof.
+  intros cx base lbls n init cond post nb body c Hc Hn. simpl in Hc. inv_bind' Hc. inversion Hc; subst. clear Hc.
+  rewrite (cost_pos n Hn) in *. unfold wrap at 1. destruct (Nat.eqb_spec n 0) as [|_]; [contradiction|].
+  eexists _, c0. split; [reflexivity|]. split.
+  { apply in_or_app. right. apply in_or_app. right. apply in_or_app. right. apply in_or_app. right. left. reflexivity. }
+  split.
+  { intros i Hi. apply In_nth_error in Hi as (k & Hk). exists k. split.
+    - rewrite nth_error_app1; [exact Hk|]. apply nth_error_Some. congruence.
+    - rewrite <- (map_length csimple). apply nth_error_Some. congruence. }
+  cbv zeta. split; [exact Hc0|]. split; [reflexivity|]. split; [reflexivity|].
+  split; [lia|]. split; [destruct post; unfold bsize; lia|].
+  simpl size. rewrite (cost_pos n Hn). unfold bsize. destruct cond; lia.
+Qed.
